@@ -11,6 +11,8 @@
                 is; never a panic; consensus.Process never writes;
      ClassOK    violated rules all of the consensus-error kind => IsCritical everywhere (a change is drift, not a
                 violation).
+   BaseFee events (replay of the TLC-exported base-fee cases, see MC_BlockRulesBaseFee) are judged by recomputing the
+   recurrence from the logged parent fields.
    On a line that is not consumed the reason is printed as  NONCONFORMING <line> <reason> .                         *)
 EXTENDS BlockRules, TraceLib
 
@@ -24,8 +26,9 @@ Verdicts(c) == {c.fresh, c.warm, c.node}
 ExpV(c, v) == IF v # {} THEN "reject" ELSE IF c.unknown THEN "any" ELSE "accept"
 ExpC(c, v) == IF v # {} /\ v \subseteq CriticalRules THEN "critical" ELSE "any"
 
+\* (the rebuilt base block is the real packer's block: the driver's expectation says nothing about it, the rules judge it)
 Coherent(c, v) ==
-  c.kind = "mutant" =>
+  (c.kind = "mutant" /\ c.var # "rebuilt_identity") =>
      /\ c.goexpect = ExpV(c, v)
      /\ c.goexpect = "reject" => c.rule \in v
 
@@ -58,11 +61,21 @@ CaseOK(c) ==
   IF ~c.pknown THEN ConformsOrphan(c)
   ELSE LET v == Violated(c) IN Coherent(c, v) /\ ConformsKnown(c, v) /\ ClassOK(c, v)
 
+\* BaseFee events: replay of the cases exported by MC_BlockRulesBaseFee on the real header validation. The child is
+\* valid in everything but (possibly) its base fee; the formula is recomputed here from the parent's three fields.
+BaseFeeExp(e)  == IF Eq(e.cand, ChildBaseFee(e.par.gl, e.par.gu, e.par.bf)) THEN "accept" ELSE "reject"
+BaseFeeOK(e)   == e.fresh = BaseFeeExp(e) /\ e.warm = BaseFeeExp(e) /\ e.store = "same"
+BaseFeeClass(e) == BaseFeeExp(e) = "reject" => {e.cfresh, e.cwarm} = {"critical"}
+BaseFeeReason(e) == IF ~BaseFeeOK(e) THEN <<"violation", e.rule, e.var, BaseFeeExp(e), {"base_fee_value"}>>
+                    ELSE <<"drift:class", e.rule, e.var, "critical", {"base_fee_value"}>>
+
 Init == HWMInit /\ l = 1
 
 Next == /\ l <= Len(Trace)
         /\ CASE Ev.e = "Case"  -> \/ CaseOK(Ev)
                                   \/ (~CaseOK(Ev) /\ PrintT(<<"NONCONFORMING", l, Reason(Ev)>>) /\ FALSE)
+             [] Ev.e = "BaseFee" -> \/ (BaseFeeOK(Ev) /\ BaseFeeClass(Ev))
+                                    \/ (~(BaseFeeOK(Ev) /\ BaseFeeClass(Ev)) /\ PrintT(<<"NONCONFORMING", l, BaseFeeReason(Ev)>>) /\ FALSE)
              [] Ev.e = "End"   -> Ev.count = l - 1 /\ l = Len(Trace)       \* no line was lost
              [] Ev.e = "Panic" -> PrintT(<<"NONCONFORMING", l, <<"violation", "decode", Ev.where, "no-panic", {}>> >>) /\ FALSE
              [] OTHER -> FALSE
